@@ -29,7 +29,7 @@ TOKENS = ["$", "@", ".", "..", "[", "]", "(", ")", "?", ",", ":", "*", "!", "&&"
           "1", "-1", "01", "-0", "1.5", "1e400", "1e-400", "-0e-999", "9" * 40, "a", "true", "false", "null", "length(", "count(", "value(",
           "match(", "search(", "f(", " ", "\n", "\t", "\r", "'", '"', "\\", "\\u", "\\ud83d", "é", "\U0001F600", "\x00", "\x7f", "_", "-", "=", "&", "|", "~", "#", "{", "}", "0", "e", "E", "+", "/",
           "\u00b2", "\u2460", "\u0663", "\uff11", "1\u00b2", "-\u0661", "\u00bd", "\u0e51", "\U0001d7d9",
-          "%", "%s", "%d", "%(a)s", "{}", "{0}", "%%", "a%b"]
+          "%", "%s", "%d", "%(a)s", "{}", "{0}", "%%", "a%b", ":1.5", ":2.0e3", ":-0.5", ":1", "1.5:", ":1e-2"]
 GARBAGE = list("$@.[]()?,:*!&|=<>'\"\\ \n\t\r-+eE0123456789abcfnrtu_{}#~/") + ["é", "\U0001F600", " ", "\x00", "\x1f", "\u00b2", "\u2460", "\u0663", "\uff11", "￿", "퟿", "\U0010ffff", "ÿ"]
 
 ROOTS = [None, True, False, 0, 1, -1, 1.5, "", "abc", [], {}, [None], [0, "a", [], {}], {"a": 1}, {"a": {"b": [1, 2, {"c": None}]}, "b": "x"},
